@@ -227,7 +227,7 @@ struct GMsg {
     sig: Option<GRec>,
 }
 
-fn gen_msg(r: &mut Rng, big: bool) -> GMsg {
+fn gen_msg(r: &mut Rng, big: bool, huge: bool) -> GMsg {
     let id = r.below(65536) as u16;
     let mut msg = Message::new(id, if r.chance(3, 4) { MessageType::Response } else { MessageType::Query }, OpCode::Query);
     let rcode = *r.pick(&[ResponseCode::NoError, ResponseCode::NXDomain, ResponseCode::ServFail, ResponseCode::BADVERS, ResponseCode::BADCOOKIE]);
@@ -249,7 +249,25 @@ fn gen_msg(r: &mut Rng, big: bool) -> GMsg {
     }
     let scale = if big { 12 } else { 4 };
     let sect = |r: &mut Rng, maxn: u64| -> Vec<GRec> { let k = r.below(maxn + 1); (0..k).map(|_| gen_rec(r)).collect() };
-    let answers = sect(r, scale);
+    let mut answers = sect(r, scale);
+    if huge {
+        // padding record that pushes the following names across offset 0x3FFF (the 14-bit pointer
+        // range), then names that repeat on both sides of it
+        let pad = r.range(16150, 16420) as usize;
+        let b = r.bytes(pad);
+        let name = gen_name(r);
+        let rec = Record::from_rdata(name.to_name(), 60, RData::NULL(NULL::with(b.clone())));
+        answers.insert(answers.len().min(1), GRec { name, rtype: 10, class: 1, ttl: 60, parts: vec![GPart::Bytes(b)], rec });
+        let rep = gen_name(r);
+        for _ in 0..3 {
+            let mut g = gen_rec(r);
+            if r.chance(2, 3) {
+                g.rec.name = rep.to_name();
+                g.name = rep.clone();
+            }
+            answers.push(g);
+        }
+    }
     let auth = sect(r, scale / 2);
     let add = sect(r, scale / 2);
     for g in &answers {
@@ -479,9 +497,10 @@ fn oracle(m: &GMsg, limit: u16, out: &Result<Vec<u8>, u8>) -> Option<String> {
 fn case(seed: u64, index: u64) -> CaseOut {
     let mut r = Rng::for_case(seed, index);
     let big = r.chance(1, 6);
-    let m = gen_msg(&mut r, big);
+    let huge = r.chance(1, 50);
+    let m = gen_msg(&mut r, big, huge);
     let full = encode_impl(&m.msg, u16::MAX).ok().and_then(|x| x.ok()).map(|b| b.len()).unwrap_or(600);
-    let limit: u16 = match r.below(10) {
+    let limit: u16 = if huge && r.chance(2, 3) { *r.pick(&[u16::MAX, 16384, 16500, 17000]) } else { match r.below(10) {
         0 => 12,
         1 => *r.pick(&[13u16, 16, 28, 511, 512, 513]),
         2 => full.saturating_sub(1).max(12) as u16,
@@ -489,10 +508,10 @@ fn case(seed: u64, index: u64) -> CaseOut {
         4 => (full + 1).max(12) as u16,
         5 => u16::MAX,
         _ => r.range(12, (full as u64 + 4).min(65535)) as u16,
-    };
+    } };
     let out = encode_impl(&m.msg, limit);
     let text_in = format!("limit={limit} full={full} {}", msg_text(&m));
-    let (coq, otext, fail, kind) = match &out {
+    let (coq, otext, fail, mut kind) = match &out {
         Ok(o) => {
             let (tag, pb) = match o {
                 Ok(b) => (0u8, coq_pb(b)),
@@ -515,6 +534,9 @@ fn case(seed: u64, index: u64) -> CaseOut {
         }
         Err(p) => (format!("CEnc {limit} {} 99 (PB 0 [])", msg_coq(&m)), format!("PANIC {p}"), Some(format!("encoder panicked: {p}")), "panic"),
     };
+    if huge && kind != "panic" {
+        kind = if kind == "truncated" { "huge-truncated" } else if kind == "complete" { "huge-complete" } else { "huge-error" };
+    }
     CaseOut {
         index,
         coq,
